@@ -107,6 +107,13 @@ async def direct(world, steps) -> None:
             world.peer.teardown(st['code'])
         elif do == 'incoming':
             world.offer_incoming()
+        elif do == 'remove':
+            # what Reactor.reload() / shutdown() do with a neighbour which is no longer configured
+            world.log('teardown', code=3)
+            getattr(world.peer, st.get('how', 'remove'))()
+            world.forget_remote()
+        elif do == 'readd':
+            world.readd_peer()
         elif do == 'refuse':
             world.connect_plan += ['fail'] * st.get('n', 1)
         else:
@@ -317,6 +324,11 @@ def fam_connections() -> list:
     for state in ('OPENSENT', 'OPENCONFIRM', 'ESTABLISHED'):
         for cls in ('HDR-marker', 'KA' if state == 'OPENSENT' else 'OPEN', 'HDR-length'):
             out.append((f'fault-then-gone:{cls}@{state}', reach(state) + [stim(cls), {'do': 'close'}, {'do': 'sleep', 'ms': 1500}, {'do': 'incoming'}, {'do': 'sleep', 'ms': 500}], {}))
+    # the neighbour is removed (reload without it, shutdown) at every stage of a session, then configured again: every "up"
+    # the API saw is followed by a "down" before the next one
+    for state in ('OPENSENT', 'OPENCONFIRM', 'ESTABLISHED'):
+        for how in ('remove', 'shutdown'):
+            out.append((f'{how}-then-back@{state}', reach(state) + [{'do': 'remove', 'how': how}, {'do': 'sleep', 'ms': 700}, {'do': 'readd'}, {'do': 'est'}, {'do': 'sleep', 'ms': 800}, {'do': 'send', 'cls': 'KA'}, {'do': 'sleep', 'ms': 400}], {}))
     out.append(('hold0-from-peer', [{'do': 'wait', 'type': 1}, {'do': 'send', 'cls': 'OPEN', 'hold': 0}, {'do': 'sleep', 'ms': 2000}, {'do': 'send', 'cls': 'KA'}, {'do': 'sleep', 'ms': 8000}], {}))
     return out
 
